@@ -243,14 +243,14 @@ func (c *Config) flattenedKeys(opts *options) []string {
 		keys = append(keys, ctx.path(opts.pathSep))
 	}
 
-	if c.IsDict() {
-		for _, v := range c.fields.dict() {
-			collect(v)
-		}
-	} else if c.IsArray() {
-		for _, a := range c.fields.array() {
-			collect(a)
-		}
+	// named and indexed settings are both walked: a dictionary that lost its
+	// last named setting keeps an empty (non-nil) table and still answers
+	// IsDict, its list elements are settings nevertheless
+	for _, v := range c.fields.dict() {
+		collect(v)
+	}
+	for _, a := range c.fields.array() {
+		collect(a)
 	}
 	return keys
 }
